@@ -240,20 +240,46 @@ def repeated_runs(_):
       test.measurements.m = runs[0]
       test.measurements.d[runs[0]] = runs[0]
       test.attach('att', b'run%d' % runs[0])
+  from openhtf.core import base_plugs
+  made = []
+
+  class TriggerPlug(base_plugs.BasePlug):
+    def __init__(self):
+      made.append(('trigger', runs[0]))
+
+  class PhasePlug(base_plugs.BasePlug):
+    def __init__(self):
+      made.append(('phase', runs[0]))
+
+  @htf.plug(tp=TriggerPlug)
+  def trigger(test, tp):
+    test.dut_id = 'dut'
+
+  @htf.plug(pp=PhasePlug)
+  def pq(test, pp):
+    pass
   fp0 = (fingerprint(p), fingerprint(p0))
-  t = htf.Test(p0, p)
+  t = htf.Test(p0, p, pq)
   fpt0 = fingerprint(t.descriptor.phase_sequence)
+  plug_types0 = sorted(x.__name__ for x in t.descriptor.plug_types)
   recs = []
   t.add_output_callbacks(recs.append)
   build.CONF.load(allow_unset_measurements=True, _override=True)
   try:
     for r in (1, 2, 3):
       runs[0] = r
-      t.execute()
+      if r == 1:
+        t.execute(test_start=trigger)      # only the first run is started by a trigger phase with its own plug
+      else:
+        t.execute()
+      if sorted(x.__name__ for x in t.descriptor.plug_types) != plug_types0:
+        bad.append('executing a test changed the set of plug types of its descriptor')
       if (fingerprint(p), fingerprint(p0)) != fp0 or fingerprint(t.descriptor.phase_sequence) != fpt0:
         bad.append('executing a test mutated the phases / measurements / validators / node tree it was declared with')
   finally:
     build.CONF.load(allow_unset_measurements=False, _override=True)
+  if sorted(made) != [('phase', 1), ('phase', 2), ('phase', 3), ('trigger', 1)]:
+    bad.append('plugs constructed in a run depend on an earlier run (%s)' % sorted(made))
   for r, (state, had_diag, m_oc) in zip((1, 2, 3), seen_state):
     if state:
       bad.append('a run started with a non-empty state dict')
